@@ -69,6 +69,10 @@ class C11(Check):
             reps3, _ = scopes.structural_scope(scopes.L3, scopes.SIG3, 4, want, seed, 1)
             for conds, cls in reps3[seed % step::step]:
                 out.append(("small", scopes.SIG3, conds, cls, q3))
+        repsm, _ = scopes.structural_scope(scopes.L3MIX, scopes.SIG3, 2, ("strong",), seed, 1, minsize=2)
+        for conds, cls in repsm:       # conjunctive consequents: clause count and conditional count differ
+            if any(x[0][0] == "and" for x in conds):
+                out.append(("small", scopes.SIG3, conds, cls, q3))
         reps2d, _ = scopes.structural_scope(scopes.L3, scopes.SIG3, 2, ("strong",), seed, 1, minsize=2)
         for pair, _cls in reps2d:      # the same conditional twice
             out.append(("small", scopes.SIG3, [pair[0], pair[0], pair[1]], "strong", q3))
